@@ -115,7 +115,7 @@ def enforce_table(ctx, inline_gate=True):
     enf = prog.func(POLICY + '.Enforcer.enforce')
     gate = scope_gate(prog)
     t = Table(prog, enf, inline=enforce_inline(prog, gate, inline_gate),
-              max_paths=200000, max_depth=4)
+              max_paths=200000, max_depth=4, closures=True)
     t.gate = gate
     t.enf = enf
     cache[key] = t
